@@ -90,6 +90,9 @@ Contract(
     props=("C04", "C03"),
     kind="tier2",
     native={"gen": "gen_xtab2d"},
-    options={"mask_membership": True},
+    options={"assume_call_requires": {
+        ("_strides", 0): "np.sort returns a non-decreasing vector and the masked values are finite (assumed NumPy contracts for np.sort and boolean-mask indexing)",
+        ("_strides", 3): "every element of np.sort(a[mask]) is an element of a at a position where the mask holds, hence a category (assumed NumPy contracts)",
+    }},
     notes="the dict of lists is an uninterpreted map; the table-level statement is carried by the bounded stand-in c04_crosstab",
 )
